@@ -101,13 +101,28 @@ def overlay_for(ctx, hook_pkgs=(), replaced=None):
     return path
 
 
+def _modfile(ctx):
+    """go.mod for the harness pointing at REPO (so checks can run against a scratch copy of the repository:
+    VERIF_REPO=/tmp/wt ./check ...).  Returns extra `go build` arguments."""
+    if REPO == "/repo":
+        return []
+    mf = os.path.join(ctx.scratch, "alt.mod")
+    if not os.path.exists(mf):
+        with open(os.path.join(HARNESS, "go.mod")) as f:
+            txt = f.read().replace("=> /repo", "=> " + REPO)
+        with open(mf, "w") as f:
+            f.write(txt)
+        shutil.copy(os.path.join(REPO, "go.sum"), os.path.join(ctx.scratch, "alt.sum"))
+    return ["-modfile=" + mf]
+
+
 def go_build(ctx, cmd, overlay=None, tags="verif", name=None):
-    """Builds harness/cmd/<cmd> against /repo's current working tree."""
-    if not os.path.exists(os.path.join(HARNESS, "go.sum")) or \
-            os.path.getmtime(os.path.join(REPO, "go.sum")) > os.path.getmtime(os.path.join(HARNESS, "go.sum")):
-        shutil.copy(os.path.join(REPO, "go.sum"), os.path.join(HARNESS, "go.sum"))
+    """Builds harness/cmd/<cmd> against REPO's current working tree (default /repo)."""
+    hs = os.path.join(HARNESS, "go.sum")
+    if not os.path.exists(hs):
+        shutil.copy(os.path.join(REPO, "go.sum"), hs)
     out = os.path.join(ctx.scratch, name or ("bin-" + cmd))
-    args = ["go", "build", "-tags", tags]
+    args = ["go", "build", "-tags", tags] + _modfile(ctx)
     if overlay:
         args += ["-overlay", overlay]
     args += ["-o", out, "./cmd/" + cmd]
